@@ -690,6 +690,8 @@ impl Message {
             return Err(DecodeMessageError::TooShort);
         } else if bytes[0] != 100 {
             return Err(DecodeMessageError::NotBencodeDictionary);
+        } else if nested_too_deep(bytes) {
+            return Err(DecodeMessageError::NestedTooDeep);
         }
 
         Message::from_serde_message(internal::DHTMessage::from_bytes(bytes)?)
@@ -767,6 +769,53 @@ impl Message {
             _ => None,
         }
     }
+}
+
+/// KRPC messages nest four levels at most (message, arguments, list, item).
+const MAX_NESTING: usize = 16;
+
+/// Skim over the bencode structure without recursion, to reject messages nested deep enough
+/// (thousands of `l` or `d` in one datagram) to overflow the stack of the recursive decoder.
+/// Anything malformed is left for the decoder to report.
+fn nested_too_deep(bytes: &[u8]) -> bool {
+    let mut depth = 0_usize;
+    let mut i = 0_usize;
+
+    while i < bytes.len() {
+        match bytes[i] {
+            b'd' | b'l' => {
+                depth += 1;
+                if depth > MAX_NESTING {
+                    return true;
+                }
+                i += 1;
+            }
+            b'e' => {
+                depth = depth.saturating_sub(1);
+                i += 1;
+            }
+            b'i' => match bytes[i..].iter().position(|byte| *byte == b'e') {
+                Some(end) => i += end + 1,
+                None => return false,
+            },
+            b'0'..=b'9' => {
+                let mut len = 0_usize;
+                while i < bytes.len() && bytes[i].is_ascii_digit() {
+                    len = len
+                        .saturating_mul(10)
+                        .saturating_add((bytes[i] - b'0') as usize);
+                    i += 1;
+                }
+                if i >= bytes.len() || bytes[i] != b':' {
+                    return false;
+                }
+                i = i.saturating_add(1).saturating_add(len);
+            }
+            _ => return false,
+        }
+    }
+
+    false
 }
 
 fn bytes_to_sockaddr<T: AsRef<[u8]>>(bytes: T) -> Result<SocketAddrV4, DecodeMessageError> {
@@ -924,6 +973,9 @@ pub enum DecodeMessageError {
 
     #[error("Put mutable message is missing its sequence number or signature")]
     MissingMutableFields,
+
+    #[error("Message is nested too deep")]
+    NestedTooDeep,
 }
 
 #[cfg(test)]
